@@ -101,6 +101,35 @@ def run(ctx):
             ctx.ob('C09.R1', fi, stmt.lineno, f"`{side.replace('step.', '')}` side is counted only when that object is a destination",
                    bool(g), fact=str(g[0]) if g else 'no membership test on the name of that record',
                    why='amounts of objects outside the destination set are counted', key=f"destination test {side}")
+    # what 'remove' steps discarded is counted whatever the destinations are: the term that reads step.trash must not sit
+    # under a condition that depends on the destination set
+    dparam = 'destinations'
+    if dparam not in fi.param_names():
+        raise AnalysisError('get_substance_used: parameter `destinations` not found')
+    for stmt in walk_no_nested(fi.node):
+        if not isinstance(stmt, ast.AugAssign) or id(stmt) not in ff.pre:
+            continue
+        st_ = ff.state_before(stmt)
+        v = ff.resolve(stmt.value, st_)
+        if 'step.trash' not in atoms_of(v):
+            continue
+        entry = st_.loops[-1][2] if st_.loops else {}
+        guards = [f for k, f in st_.facts.items() if k not in entry]
+        # the destination set: the parameter, and every variable a record's name is tested against
+        dest_vars = set()
+        for st2 in ff.pre.values():
+            for c in facts_at(st2):
+                if c.op in ('in', 'notin') and c.right is not None and any(
+                        isinstance(n, ast.Attribute) and n.attr == 'name' and (getattr(n.value, 'pkey', None) or '').startswith('step.')
+                        for n in deep_walk(c.left)):
+                    dest_vars |= {n.name for n in deep_walk(c.right, follow_refs=False) if isinstance(n, Ref)}
+        bad = [f for f in guards if any((isinstance(n, Param) and n.name == dparam) or
+                                        (isinstance(n, Ref) and n.name in dest_vars) for n in deep_walk(f.test))]
+        ctx.ob('C09.R1', fi, stmt.lineno, 'the discarded amount is counted independently of the destination set', not bad,
+               fact=f"{len(guards)} condition(s) on the path, {len(bad)} of them depend on `{dparam}`" +
+                    (f": {show(bad[0].test, 60)}" if bad else ''),
+               why='what a remove step discarded is dropped when the removed-from object is not among the destinations',
+               key='trash term under a destination condition')
     # ---------------------------------------------------------------- R2 stage slices
     stage_rules(ctx)
     # ---------------------------------------------------------------- R3 record protocol
